@@ -42,7 +42,8 @@ def solve(puzzle, h, w, problem):
     import z3
     z3.set_param("timeout", 120000)
     from cspuz.puzzle import (slitherlink, masyu, yajilin, simpleloop, nurikabe, norinori, akari, star_battle, yinyang,
-                              creek, heyawake, lits, nurimisaki, putteria, aquarium, gokigen)
+                              creek, heyawake, lits, nurimisaki, putteria, aquarium, gokigen, sudoku, building, doppelblock,
+                              fillomino, view, geradeweg, castle_wall, compass)
 
     def rooms(rgs):
         k = max(rgs) + 1
@@ -98,6 +99,41 @@ def solve(puzzle, h, w, problem):
         if puzzle == "gokigen":
             sat, a = gokigen.solve_gokigen(h, w, grid(problem, h + 1, w + 1))
             return sat, arr_facts(a) if sat else []
+        if puzzle == "sudoku":
+            n = h
+            sat, a = sudoku.solve_sudoku(grid(problem, n * n, n * n), n)
+            return sat, int_facts(a) if sat else []
+        if puzzle == "building":
+            n = h
+            sat, a = building.solve_building(n, list(problem[0:n]), list(problem[n:2 * n]), list(problem[2 * n:3 * n]), list(problem[3 * n:4 * n]))
+            return sat, int_facts(a) if sat else []
+        if puzzle == "doppelblock":
+            n = h
+            sat, a = doppelblock.solve_doppelblock(n, list(problem[0:n]), list(problem[n:2 * n]))
+            return sat, int_facts(a) if sat else []
+        if puzzle == "fillomino":
+            sat, a = fillomino.solve_fillomino(h, w, grid(problem, h, w))
+            return sat, int_facts(a) if sat else []
+        if puzzle == "view":
+            sat, nums, has = view.solve_view(h, w, grid(problem, h, w))
+            return sat, (int_facts(nums) + arr_facts(has)) if sat else []
+        if puzzle == "geradeweg":
+            sat, fr = geradeweg.solve_geradeweg(h, w, grid(problem, h, w))
+            return sat, frame_facts(fr) if sat else []
+        if puzzle == "castle_wall":
+            def arrow(v):
+                if v == 0:
+                    return ".."
+                d, n = (v % 1000) // 100, v % 100
+                return _YDIR[d] + str(n)
+            def colour(v):
+                return {0: None, 1: True, 2: False}[v // 1000] if v else None
+            sat, fr = castle_wall.solve_castle_wall(h, w, grid(problem, h, w, arrow), grid(problem, h, w, colour))
+            return sat, frame_facts(fr) if sat else []
+        if puzzle == "compass":
+            pr = [(c[0] // w, c[0] % w, c[1], c[2], c[3], c[4]) for c in problem]     # (y, x, up, left, down, right)
+            sat, a = compass.solve_compass(h, w, pr)
+            return sat, int_facts(a) if sat else []
     raise ValueError("no adapter for " + puzzle)
 
 
